@@ -283,3 +283,19 @@ PROPS["C07"] = {
         {"name": "TestKnown_C07_Collision", "witness_only": True},
     ],
 }
+
+PROPS["C06"] = {
+    "level": "exploration",
+    "technique": "metamorphic (twin-world) property-based testing with rapid + enumeration over all handshake points: the same generated history is run twice with identical seeds, one run additionally receives one rejected input derived from genuine traffic without the session keys; every later API call must behave identically",
+    "level_text": "for generated histories and a rejected input injected at any op boundary (before/during/after AKE, across rotations, during SMP) both worlds are compared call by call: plaintexts, errors, SMP/security/message events, encryption state, peer fingerprint, instance tags and for every emitted message its kind, version, flags, key ids and counter",
+    "level_note": "wire bytes, SSID values and extra-key bytes are not compared across the worlds (a rejected key-exchange message may consume randomness); the optional ?OTR Error reply to the rejected input is dropped; inputs that turn out not to be rejected are discarded and counted",
+    "rule": ("histories: ping-pong rounds, sends, FIFO/out-of-order deliveries, flush, SMP start/answer, extra key, clock ageing by 2 minutes, refresh by query, End; rejected input kinds for data messages: bit flip in the authenticated part, counter raised (+1, 2^60, +1000, max), sender/recipient key id raised, MAC damaged, truncated, tags invalid/foreign, other version, next-DH replaced, replay; "
+             "for key-exchange messages: bit flip, truncation, tags, version, replay, re-typed; source = the message in flight towards the receiver or an earlier one of the peer. The input must qualify as rejected (no plaintext, no event-worthy effect, nothing to send but an error reply). "
+             "Enumeration: handshake delivered up to k=0..5 messages x receiver x 6 kinds x source x truncation points, then the rest of the handshake and traffic. Non-trivial: receiver was encrypted, mid-SMP or mid-key-exchange and the continuation delivered >=2 texts each way."),
+    "assumptions": COMMON_ASSUME,
+    "exhaustive_checks": ["C06akestates"],
+    "tests": [
+        {"name": "TestProp_C06_Twin", "quick": {"shards": 8, "checks": 60, "timeout": 600}, "thorough": {"shards": 16, "checks": 1200, "timeout": 3000}},
+        {"name": "TestProp_C06_AKEStates", "kind": "plain", "quick": {"shards": 8, "timeout": 600}, "thorough": {"shards": 16, "timeout": 3000}},
+    ],
+}
